@@ -232,7 +232,7 @@ func report(p *Prog, run *propRun, opts checkOpts, diags []string, wall time.Dur
 			rec["solver"] = o.Solver
 			rec["solver_output"] = o.Model
 			rec["position"] = o.Pos
-			if o.Status == "failed" && o.Kind != "vacuity" {
+			if (o.Status == "failed" || o.Status == "undecided") && o.Kind != "vacuity" && o.Kind != "cover" && !strings.HasPrefix(o.Kind, "frame") {
 				rp := tryReplay(p, o, replayDir)
 				rec["replay"] = rp
 				if rp != nil && rp.Reproduced {
